@@ -43,6 +43,16 @@ let rec run_case (kind : string) (body : sexp list) : string * string =
       let key = apply_fn (fn_of (List.nth body 1)) in
       let calls = slot (List.map ev_of (args (List.nth body 2))) in
       (show_gevs (run_group_by key calls), "UNSPECIFIED")
+  | "flatten" ->
+      (* (flatten FORM API LIMIT (stims ...)) *)
+      let api = atom (List.nth body 1) in
+      let lim = (match api, List.nth body 2 with
+                 | ("concat_all" | "concat_map"), _ -> Some (S O)
+                 | ("flatten" | "flat_map"), _ -> None
+                 | _, Atom "inf" -> None
+                 | _, n -> Some (narg n)) in
+      let sts = List.map fstim_of (args (List.nth body 3)) in
+      (show_fouts (run_flatten lim sts), "UNSPECIFIED")
   | k -> failwith ("unknown case kind " ^ k)
 
 let gev_of (s : sexp) : gev =
@@ -71,6 +81,30 @@ let oracle (kind : string) (body : sexp list) (impl : string) : string option =
       else if outer_term out <> term_evs t then Some "reject:C20_outer_term"
       else if not (announced_first [] out) then Some "reject:C20_announced_first"
       else Some "ok"
+  | "flatten" ->
+      if String.length impl >= 5 && String.sub impl 0 5 = "PANIC" then Some "reject:panic(C05: without panicking)" else
+      if impl = "HANG" then Some "reject:hang(C05: without blocking)" else
+      let api = atom (List.nth body 1) in
+      let lim = (match api, List.nth body 2 with
+                 | ("concat_all" | "concat_map"), _ -> Some (S O)
+                 | ("flatten" | "flat_map"), _ -> None
+                 | _, Atom "inf" -> None
+                 | _, n -> Some (narg n)) in
+      let fout_of (s : sexp) : fout =
+        match s with
+        | List [Atom "i"; k; v] -> FItem (narg k, val_of v)
+        | List [Atom "t"; e] -> FTerm (ev_of e)
+        | List [Atom "sub"; k] -> FSubscribed (narg k)
+        | List [Atom "done"; k] -> FInnerDone (narg k)
+        | List [Atom "m"; j] -> FMark (narg j)
+        | _ -> failwith "bad fout" in
+      let out = (match parse ("(" ^ impl ^ ")") with List l -> List.map fout_of l | _ -> []) in
+      if not (peak_ok lim O out) then Some "reject:C05_limit"
+      else if not (wf (downstream out)) then Some "reject:C05_downstream_wf"
+      else if not (subs_increasing O out) then Some "reject:inner observables subscribed out of outer order"
+      else if not (completion_ok lim (List.map fstim_of (args (List.nth body 3))) out)
+        then Some "reject:completion not exactly when the outer and all inner observables have completed, or a waiting inner observable not started although a slot is free"
+      else Some "ok"
   | _ -> None
 
 let () =
@@ -98,6 +132,9 @@ let () =
                with Failure msg -> ("MODEL-ERROR " ^ msg, "MODEL-ERROR " ^ msg) in
              Buffer.add_string out (id ^ " M " ^ m ^ "\n");
              Buffer.add_string out (id ^ " S " ^ s ^ "\n");
+             (match (try oracle kind body m with _ -> Some "reject:unparsable") with
+              | Some v when v <> "ok" -> Buffer.add_string out (id ^ " X " ^ v ^ "\n")
+              | _ -> ());
              (match Hashtbl.find_opt impl_tbl id with
               | Some impl ->
                   (match (try oracle kind body impl with _ -> Some "reject:unparsable") with
